@@ -4,7 +4,7 @@ from hypothesis import strategies as st
 
 @st.composite
 def tags(draw, ncells, subdomains=True, boundaries=True, oriented=False, maxnames=2, pools=('boundary', 'interior', 'all'),
-         names=False, empty_boundaries=False):
+         names=False, empty_boundaries=False, repeats=False):
     """names=True: realistic names that contain the separators/prefixes storage formats use internally"""
     SN = ['s_s', 'glass_1', 'solid', 'rib_s_2', 'b_core', 'Omega', 's_', 'left']
     BN = ['b_b', 'web_top', 'gamma', 'rib_b_2', 's_wall', 'b_', 'inlet_b_s_', 'left']
@@ -21,6 +21,8 @@ def tags(draw, ncells, subdomains=True, boundaries=True, oriented=False, maxname
                 ix = [draw(st.integers(0, ncells - 1))]
             else:
                 ix = draw(st.lists(st.integers(0, ncells - 1), min_size=1, max_size=ncells, unique=True))
+            if repeats and ix and draw(st.integers(0, 4)) == 0:
+                ix = ix + ix[:1]            # an index array naming an entity twice (np.concatenate of overlapping selections)
             s[(draw(st.sampled_from(SN)) if names else f's{k}')] = ix
         out['subdomains'] = s
     if boundaries:
@@ -29,6 +31,8 @@ def tags(draw, ncells, subdomains=True, boundaries=True, oriented=False, maxname
             spec = dict(pool=draw(st.sampled_from(list(pools))),
                         picks=draw(st.lists(st.integers(0, 10**4), min_size=1, max_size=12)))
             spec['ori'] = draw(st.lists(st.integers(0, 1), min_size=1, max_size=6)) if (oriented and draw(st.booleans())) else None
+            if repeats and draw(st.integers(0, 4)) == 0:
+                spec['repeat'] = True
             if empty_boundaries and spec['ori'] is not None and draw(st.integers(0, 2)) == 0:
                 spec['twosided'] = True     # interior facets listed from both sides (skin of two adjacent regions in one name)
             if empty_boundaries and draw(st.integers(0, 5)) == 0:
